@@ -547,13 +547,17 @@ func main() {
 		// init code that reads return data at an offset at the edge of the machine word (offset + length wraps):
 		// the frame must fail, the executor must not panic
 		"rdcwrap": "600167ffffffffffffffff60003e00",
-		"revert":  "60006000fd",
-		"invalid": "fe",
-		"empty":   "",
+		// init code that calls the RIPEMD-160 precompile (address 3) and then fails: the touch of address 3 is
+		// journalled in a special way (a mainnet consensus quirk); the failed frame must leave nothing behind
+		// and the executor must not panic
+		"ripemdfail": "6000600060006000600060035af1fe",
+		"revert":     "60006000fd",
+		"invalid":    "fe",
+		"empty":      "",
 	}
 	seqs := r.Scale(24, 240)
 	var boundaryHash []byte
-	for s := 0; s < seqs; s++ {
+	for s := 0; s < seqs+1; s++ { // (one more world than random ones: the last is directed, see below)
 		history = history[:1]
 		if do("new") != "ok" {
 			continue
@@ -584,6 +588,10 @@ func main() {
 		// a failing frame touches its address - in the same block (world 1) or in the next (world 2). None of the
 		// contracts reads the block context, so the final application hash must be the same (C09: a failed
 		// transaction changes nothing; C05: the state is a function of the transactions).
+		if s == seqs { // after the random worlds: failing frames that touched a precompile, then ordinary traffic
+			script = [][]string{{"create 0 ripemdfail"}, {"kv 1"}, {"create 1 ripemdfail", "kv 2", "create 0 ripemdfail"}, {"kv 0"}}
+			blocks = len(script)
+		}
 		if s == 1 || s == 2 {
 			txs := []string{"create 0 mortal", "create 1 proxy", "calld 0 c0:0 01", "call 0 c0:0", "pcall 1 c1:0 c0:0", "calld 2 c0:0 01", "pcall 1 c1:0 c0:0", "create 2 rdcwrap"}
 			cut := map[int][]int{1: {2, 3, 5, 7, 8}, 2: {2, 3, 4, 5, 6, 7, 8}}[s]
